@@ -43,6 +43,16 @@ const (
 	fdWindow    = time.Duration(tBackendIdle)*time.Second + 3*time.Second
 	fdAbsSlack  = 20 // idle-pool bound of the design: fd count <= baseline + 20
 	fdRelSlack  = 2  // second run of the same sequence may not end more than this above the first
+	// Outage steps (runOutage): quiet time after the backends are back = Cfg.comeBack + outageSettle; then up
+	// to outageRounds rounds, outagePause apart (longer than every 1 s interval), of sequential requests:
+	// outageStreak successes in a row are demanded in one of them (the count clause (ii) uses as well)
+	outageSettle = 300 * time.Millisecond
+	outageRounds = 4
+	outageStreak = 6
+	outagePause  = 1300 * time.Millisecond
+	// harness budget (not an oracle): an outage whose requests take longer than this in total is cut short
+	// (normal: a refused request is answered within a few ms, 500 of them within 2 s)
+	outageBudget = 15 * time.Second
 )
 
 // ---------------------------------------------------------------------------------------------
@@ -267,7 +277,12 @@ func exchange(addr, id, xff string, sh reqShape, acceptGzip bool, limit time.Dur
 	}
 	if final == nil && body != nil {
 		// write errors are not an end by themselves: the proxy may have answered and closed without reading the body
-		if sh.chunked {
+		if sh.chunked && len(body) > 64<<10 {
+			// a large upload as one chunk: size line, data and CRLF as separate writes (no copy of the body)
+			_, _ = fmt.Fprintf(c, "%x\r\n", len(body))
+			_, _ = c.Write(body)
+			_, _ = c.Write([]byte("\r\n0\r\n\r\n"))
+		} else if sh.chunked {
 			_, _ = fmt.Fprintf(c, "%x\r\n%s\r\n", len(body), body)
 			if mode != abortUpload {
 				_, _ = c.Write([]byte("0\r\n\r\n"))
@@ -482,6 +497,33 @@ func faultScript(fault string, k int, stall bool, framing string) *lab.RespScrip
 	return s
 }
 
+// script is what the FAULTY backend plays for request k of the step: faultScript, and - Step.Unread, for
+// the faults that strike before the response head - without taking the request body off the wire first:
+// hang-headers becomes a FROZEN backend (lab: Freeze - from the request head on nothing is read and nothing
+// written, the connection stays open until the step is over), refuse / garbage / 5xx are played from the
+// request head alone (lab: RefuseBody - reset / garbage / the 5xx response, then the connection is closed).
+func (s Step) script(k int, stall bool) *lab.RespScript {
+	sc := faultScript(s.Fault, k, stall, s.Framing)
+	if s.Unread && beforeHead(s.Fault) {
+		if s.Fault == "hang-headers" {
+			sc.Freeze = true
+		} else {
+			sc.RefuseBody = true
+		}
+	}
+	return sc
+}
+
+var uploads = noise(UploadSizes[len(UploadSizes)-1])
+
+// uploadBody is the request body of size class i (incompressible bytes; class 0 = the 2000-byte postBody).
+func uploadBody(i int) []byte {
+	if i <= 0 || i >= len(UploadSizes) {
+		return postBody
+	}
+	return uploads[:UploadSizes[i]]
+}
+
 // cutChunked is a chunked body that never gets its terminating chunk: two chunks of 250 bytes; inside:
 // the second chunk announces 350 bytes and carries 250.
 func cutChunked(inside bool) []byte {
@@ -538,6 +580,11 @@ type world struct {
 	canary    *canary
 	lastFault time.Time
 	probeNo   int // recovery probes sent so far (their shapes rotate, see afterwards.go)
+	// Outage steps: requests of all outages of this helios process so far that did not succeed, and a lab
+	// problem met while a backend was taken down / brought up (makes the case inconclusive)
+	outageFailed int
+	harnessErr   string
+	notes        []string // observations worth a line in the evidence (no verdict)
 }
 
 // Result of one executed case.
@@ -552,6 +599,7 @@ type Result struct {
 	Volleys   int      // synchronised volleys among them
 	Stalls    []string // environment stalls the canary recorded during the (last) attempt
 	Reruns    []string // earlier attempts whose violation was discarded because of a recorded stall
+	Notes     []string // observations of the lab worth a line in the evidence (no verdict)
 }
 
 func (w *world) label(l string) { w.labels[l] = true }
@@ -586,10 +634,14 @@ func startWorld(t testing.TB, c Case) (*world, string) {
 	for attempt := 0; attempt < 3; attempt++ {
 		w := &world{t: t, c: c, labels: map[string]bool{}}
 		var err error
-		if w.good, err = lab.NewRawBackend(0); err != nil {
+		newBackend := lab.NewRawBackend
+		if c.hasOutage() {
+			newBackend = lab.NewRestartableBackend // same behaviour while up; can really be taken down
+		}
+		if w.good, err = newBackend(0); err != nil {
 			return nil, "raw backend: " + err.Error()
 		}
-		if w.faulty, err = lab.NewRawBackend(1); err != nil {
+		if w.faulty, err = newBackend(1); err != nil {
 			w.close()
 			return nil, "raw backend: " + err.Error()
 		}
@@ -703,6 +755,9 @@ func (w *world) warmup() string {
 
 // runStep plays one fault step and applies oracle clause (i) to every client call of it.
 func (w *world) runStep(run, idx int, s Step) string {
+	if s.Fault == Outage {
+		return w.runOutage(run, idx, s)
+	}
 	v, _ := w.runStepOpt(run, idx, s, stepOpt{})
 	return v
 }
@@ -713,6 +768,9 @@ type stepOpt struct {
 	n     int
 	both  bool
 	quiet bool // do not record delivery classes (opening requests of a directed scenario)
+	// outage != "": the requests are one volley of an Outage step (a well-behaved burst while a backend is
+	// down); the text replaces the step's description in messages, and no good-burst classes are recorded
+	outage string
 }
 
 func (w *world) runStepOpt(run, idx int, s Step, opt stepOpt) (string, []outcome) {
@@ -744,6 +802,9 @@ func (w *world) runStepOpt(run, idx int, s Step, opt stepOpt) (string, []outcome
 		id := w.nextID()
 		shapes[k] = shapeOf(s.Kind, k)
 		shapes[k].gate = g
+		if shapes[k].body != nil && s.Upload > 0 {
+			shapes[k].body = uploadBody(s.Upload)
+		}
 		if k >= base {
 			gs, fs := wellBehaved("good", "", shapes[k], k), wellBehaved("faulty", "", shapes[k], k)
 			regs[k] = reg{id, w.good.Expect(id, gs), w.faulty.Expect(id, fs), gs, fs}
@@ -759,12 +820,12 @@ func (w *world) runStepOpt(run, idx int, s Step, opt stepOpt) (string, []outcome
 		}
 		// the backend that is not the target plays the well-behaved answer; so does FAULTY under the
 		// two client faults (there the client is the one that misbehaves)
-		gs, fs := wellBehaved("good", s.Fault, shapes[k], k), faultScript(s.Fault, k, stalls(shapes[k]), s.Framing)
+		gs, fs := wellBehaved("good", s.Fault, shapes[k], k), s.script(k, stalls(shapes[k]))
 		if abortFault(s.Fault) {
 			fs = wellBehaved("faulty", s.Fault, shapes[k], k)
 		}
 		if opt.both {
-			gs = faultScript(s.Fault, k, stalls(shapes[k]), s.Framing)
+			gs = s.script(k, stalls(shapes[k]))
 			if abortFault(s.Fault) {
 				gs = wellBehaved("faulty", s.Fault, shapes[k], k)
 			}
@@ -851,6 +912,8 @@ func (w *world) runStepOpt(run, idx int, s Step, opt stepOpt) (string, []outcome
 		delivered = true // a new connection was reset on accept
 	}
 	switch {
+	case opt.outage != "":
+		// counted by runOutage
 	case s.Fault == GoodBurst:
 		ok := 0
 		for _, o := range outs {
@@ -878,6 +941,9 @@ func (w *world) runStepOpt(run, idx int, s Step, opt stepOpt) (string, []outcome
 		w.label("mixed-burst")
 	}
 	where := fmt.Sprintf("run %d step %d (%s)", run, idx, s)
+	if opt.outage != "" {
+		where = fmt.Sprintf("run %d step %d (%s)", run, idx, opt.outage)
+	}
 	bound := w.c.Cfg.endBound()
 	for k, o := range outs {
 		switch {
@@ -963,6 +1029,135 @@ func (w *world) pause(s Step) {
 	time.Sleep(time.Until(from.Add(time.Duration(s.PauseMs) * time.Millisecond)))
 	w.lastFault = time.Now() // the recovery window of clause (ii) starts when the quiet period is over
 	w.label("quiet-period")
+}
+
+// runOutage plays an Outage step (model.go). While a backend is down the requests are ordinary well-behaved
+// ones - the backend that is up answers 200 (101 for part of an upgrade burst) - so that every failure is
+// the outage's: clause (i), both halves, applies to each of them (a refused request ends at once or, at
+// worst, within the configured timeouts; a 2xx framed as complete must carry a backend's complete body).
+//
+// The step carries its own "afterwards". When the last backend is back, every backend listens on its
+// address and answers every request and every health probe with 200 at once; nothing is sent for
+// Cfg.comeBack (the time the configuration documents for an ejected backend / an open breaker to come back:
+// 0-2 s) + 0.3 s. From then on "a request to a healthy backend succeeds normally" holds for EVERY request,
+// whichever backend Helios picks: requests of the rotating recovery-probe shapes are sent one after the
+// other from fresh client addresses, and outageStreak of them in a row must be answered 200 by a backend
+// (with exactly the backend's body: normally, afterwards.go). A round ends at the first request that is not;
+// the next round starts 1.3 s later (longer than every configured interval, so that whatever that one
+// failure left behind has aged out too); after outageRounds rounds without such a run the proxy is
+// reported as permanently degraded. The verdict counts requests and does not look at the clock: how long
+// a failing request took (a 502 at once, a 502 after the handler timeout) makes no difference.
+func (w *world) runOutage(run, idx int, s Step) string {
+	if !w.faulty.Restartable() || !w.good.Restartable() {
+		w.harnessErr = "outage step in a lab whose backends cannot be taken down"
+		return ""
+	}
+	phases := [][]*lab.RawBackend{{w.faulty}}
+	switch s.Down {
+	case "both":
+		phases = [][]*lab.RawBackend{{w.faulty, w.good}}
+	case "rolling":
+		phases = [][]*lab.RawBackend{{w.faulty}, {w.good}}
+	}
+	width := max(1, s.Concurrent)
+	budget := time.Now().Add(outageBudget)
+	sent, failed := 0, 0
+	for pi, ph := range phases {
+		for _, b := range ph {
+			if err := b.Down(); err != nil {
+				w.harnessErr = err.Error()
+			}
+		}
+		v := ""
+		for left := s.Requests; left > 0 && v == "" && w.harnessErr == ""; {
+			n := min(width, left)
+			var outs []outcome
+			v, outs = w.runStepOpt(run, idx, Step{Fault: GoodBurst, Kind: s.Kind, Concurrent: n}, stepOpt{outage: fmt.Sprintf("%s; phase %d, after %d requests", s, pi+1, sent)})
+			for _, o := range outs {
+				if o.Status != 200 && o.Status != 101 {
+					failed++
+				}
+			}
+			left -= n
+			sent += n
+			if left > 0 && time.Now().After(budget) {
+				w.label("outage-cut-short-by-the-harness-budget")
+				break
+			}
+		}
+		for _, b := range ph {
+			if err := b.Up(); err != nil {
+				w.harnessErr = err.Error()
+			}
+		}
+		if v != "" || w.harnessErr != "" {
+			return v
+		}
+	}
+	back := time.Now()
+	w.lastFault = back
+	w.outageFailed += failed
+	w.label("outage:" + map[string]string{"": "faulty"}[s.Down] + s.Down)
+	if failed > 0 {
+		w.label("delivered:" + Outage)
+		if run == 1 {
+			w.delivered++
+		}
+	} else {
+		w.label("not-delivered:" + Outage)
+	}
+	for _, n := range []int{1, 10, 50, 100, 200, 400} {
+		if w.outageFailed >= n {
+			w.label(fmt.Sprintf("failed-requests-of-all-outages-so-far>=%d", n))
+		}
+	}
+	if v := w.alive(fmt.Sprintf("after the outage of run %d step %d (%s)", run, idx, s)); v != "" {
+		return v
+	}
+	// afterwards
+	quiet := w.c.Cfg.comeBack() + outageSettle
+	time.Sleep(time.Until(back.Add(quiet)))
+	var history []string
+	for round := 1; round <= outageRounds; round++ {
+		ok := 0
+		for ok < outageStreak {
+			id := w.nextID()
+			n := atomic.LoadInt64(&w.seq)
+			shape := w.nextProbe()
+			w.good.Expect(id, probeScript("good", shape))
+			w.faulty.Expect(id, probeScript("faulty", shape))
+			o := w.sendProbe(id, fmt.Sprintf("10.79.%d.%d", (n/250)%250, n%250+1), shape)
+			w.good.Forget(id)
+			w.faulty.Forget(id)
+			history = append(history, fmt.Sprintf("round %d +%v: %s: %v", round, time.Since(back).Round(time.Millisecond), probeShapes[shape].name, o))
+			if !o.Ended {
+				return fmt.Sprintf("(ii) wedged: run %d step %d (%s): a request sent after the outage, every backend being up again, had no end %v after it was sent; requests: %v", run, idx, s, wedgeAfter, tailStrs(history, 8))
+			}
+			if v := w.normally(run, "after-the-outage", shape, o); v != "" {
+				return v + fmt.Sprintf("; requests: %v", tailStrs(history, 8))
+			}
+			if o.Status != 200 || o.Served == "" {
+				break
+			}
+			ok++
+		}
+		if ok >= outageStreak {
+			w.label(fmt.Sprintf("after-outage:%d-in-a-row-succeeded-in-round-%d", outageStreak, round))
+			w.lastFault = time.Now()
+			return ""
+		}
+		if v := w.alive(fmt.Sprintf("after the outage of run %d step %d (%s)", run, idx, s)); v != "" {
+			return v
+		}
+		w.label("after-outage:a-round-ended-early")
+		w.notes = append(w.notes, fmt.Sprintf("run %d step %d (%s): round %d of the requests after the outage ended after %d successes: %s", run, idx, s, round, ok, history[len(history)-1]))
+		time.Sleep(outagePause)
+	}
+	w.lastFault = time.Now()
+	return fmt.Sprintf("(ii) permanently degraded after an outage: run %d step %d (%s): every backend has been listening on its address again and answering every request and every health probe with 200 for %v "+
+		"(the configuration documents %v for an ejected backend / an open breaker to come back; nothing was sent for %v), yet in none of %d rounds, %v apart, of requests sent one after the other from fresh client addresses were %d in a row answered 200 by a backend "+
+		"(a round ends at the first request that is not); %d requests of the outages of this helios process so far did not succeed (%d of the %d of this step). Requests after the outage: %v",
+		run, idx, s, time.Since(back).Round(time.Millisecond), w.c.Cfg.comeBack(), quiet, outageRounds, outagePause, outageStreak, w.outageFailed, failed, sent, tailStrs(history, 14))
 }
 
 // ---------------------------------------------------------------------------------------------
@@ -1619,6 +1814,7 @@ func runOnce(t testing.TB, c Case) (res Result) {
 	w.canary = startCanary(w.healthURL)
 	defer func() {
 		res.Stalls = w.canary.seen()
+		res.Notes = w.notes
 		if len(res.Stalls) > 0 {
 			w.label("environment-stall-observed")
 		}
@@ -1674,6 +1870,9 @@ func runOnce(t testing.TB, c Case) (res Result) {
 				}
 				if v := w.runStep(run+1, i+1, s); v != "" {
 					return Result{Violation: v}
+				}
+				if w.harnessErr != "" {
+					return Result{Harness: w.harnessErr}
 				}
 				if v := w.alive(fmt.Sprintf("after run %d step %d (%s)", run+1, i+1, s)); v != "" {
 					return Result{Violation: v}
